@@ -242,7 +242,14 @@ pub fn render_module(m: &GModule) -> String {
       }
       Form::ExportStar => s.push_str(&format!("export * from \"{}\";\n", it.text)),
       Form::DynImport => {
-        s.push_str(&format!("const d{} = await import(\"{}\");\n", n, it.text))
+        // a third of the dynamic imports of typed (non-declaration) modules
+        // sit inside a namespace or a function body instead of at top level
+        let typed_source = matches!(m.media, Media::Ts | Media::Mts | Media::Tsx);
+        match hash64(&(m.url.as_str(), it.text.as_str(), n)) % 6 {
+          0 if typed_source => s.push_str(&format!("namespace NsDyn{} {{ export const d = import(\"{}\"); }}\n", n, it.text)),
+          1 => s.push_str(&format!("function fdyn{}() {{ return import(\"{}\"); }}\n", n, it.text)),
+          _ => s.push_str(&format!("const d{} = await import(\"{}\");\n", n, it.text)),
+        }
       }
       Form::ImportType => {
         s.push_str(&format!("import type {{ T{} }} from \"{}\";\n", n, it.text))
